@@ -1,13 +1,23 @@
 (** C30 - Python DB-API parameter binding is faithful.
-    Only pinned statements, each closed by [exact] of a lemma proved in
-    Lex/PlaceholderLaws.v or Store/CursorLaws.v. *)
+    Only pinned statements, each closed by [exact] of a lemma proved in the Laws files.
+
+    The statements are about the code AS IT IS NOW in /repo's working tree: the statement cache is keyed
+    by the bound text and [py_to_sqlvalue] refuses non-finite floats and ints outside i64
+    (fixes/C30-cache-key-bound-text.patch, fixes/C30-reject-unrepresentable-values.patch applied):
+    [bind_now], [run_now], [read_back_now].  Refutations remain only for what is still broken: a '?'
+    inside a literal / identifier / comment is a placeholder, and a literal can merge with a neighbouring
+    '-' or quote (fixes/C30-literal-aware-substitution.patch, not applied).  The theorems about the code
+    before the two fix commits ([execute], [bind_parameters], [read_back]: replay of the first call's
+    parameters, hit ignoring the tuple, inf/NaN as identifiers, ints rounded to doubles) stay in
+    Store/CursorLaws.v and Lex/PlaceholderLaws.v as the record of the fixed findings. *)
 From Coq Require Import ZArith List.
 From VibeSQL Require Import Lex.F64Display Lex.F64DisplayLaws Lex.F64RoundLaws Lex.F64DragonLaws Lex.Placeholder
-  Lex.PlaceholderLaws Lex.FloatTextLaws Lex.FloatRoundtripLaws Lex.PlaceholderFixed Lex.PlaceholderFixedLaws Store.Cursor Store.CursorLaws.
+  Lex.PlaceholderLaws Lex.FloatTextLaws Lex.FloatRoundtripLaws Lex.PlaceholderFixed Lex.PlaceholderFixedLaws
+  Store.Cursor Store.CursorLaws.
 Import ListNotations.
 Open Scope Z_scope.
 
-(** * substitute_placeholders, by induction on the text *)
+(** * substitute_placeholders, by induction on the text (unchanged by the fix commits) *)
 
 (** the second half of a text continues with the values the first half left over *)
 Theorem C30_substitute_app : forall (a b : text) (vals : list bval),
@@ -39,10 +49,10 @@ Theorem C30_substitute_surplus_dropped : forall sql : text,
 Proof. exact substitute_nil. Qed.
 Print Assumptions C30_substitute_surplus_dropped.
 
-Theorem C30_bind_parameters_count : forall (sql : text) (ps : list pyval) (t : text),
-  bind_parameters sql ps = Some t -> count_qm sql = length ps.
-Proof. exact bind_parameters_count. Qed.
-Print Assumptions C30_bind_parameters_count.
+Theorem C30_bind_count : forall (sql : text) (ps : list pyval) (t : text),
+  bind_now sql ps = Some t -> count_qm sql = length ps.
+Proof. exact bind_now_count. Qed.
+Print Assumptions C30_bind_count.
 
 (** a printed value contributes '?' to the bound text only through a bound string *)
 Theorem C30_print_value_count_qm : forall v : bval, bval_in_range v ->
@@ -68,14 +78,15 @@ Theorem C30_quote_rescans : forall s : text, read_literal (quote s) = Some (RStr
 Proof. exact read_literal_quote. Qed.
 Print Assumptions C30_quote_rescans.
 
-(** * the coded binder against the literal-aware binder *)
-Theorem C30_bind_parameters_eq_spec : forall (sql : text) (ps : list pyval),
-  count_protected_qm SCode sql = O -> forallb spec_agrees ps = true ->
-  bind_parameters sql ps = bind_spec sql ps.
-Proof. exact bind_parameters_eq_spec. Qed.
-Print Assumptions C30_bind_parameters_eq_spec.
+(** * the coded binder against the literal-aware binder: equal for EVERY tuple when no '?' is protected
+    (the value side condition went away with the reject repair) *)
+Theorem C30_bind_eq_spec : forall (sql : text) (ps : list pyval),
+  count_protected_qm SCode sql = O -> bind_now sql ps = bind_spec sql ps.
+Proof. exact bind_now_eq_spec. Qed.
+Print Assumptions C30_bind_eq_spec.
 
-(** * parameter values never alter the statement's structure ... outside two merge situations *)
+(** * parameter values never alter the statement's structure ... outside two merge situations
+    (still broken: known class bound-literal-merges-with-neighbour) *)
 Theorem C30_structure_preserved : forall (sql : text) (vals : list bval),
   count_protected_qm SCode sql = O -> count_qm sql = length vals ->
   safe sql (map lit_of_bval vals) = true ->
@@ -89,8 +100,20 @@ Theorem C30_structure_preserved_iff : forall (sql : text) (ls : list slit), plai
 Proof. exact structure_preserved_iff. Qed.
 Print Assumptions C30_structure_preserved_iff.
 
-(** the repair: with every literal between spaces the structure is preserved for EVERY template and
-    EVERY list of binder literals, and the repaired binder writes the specification's literals *)
+Theorem C30_structure_refuted_dash : exists (sql : text) (vals : list bval),
+  count_protected_qm SCode sql = O /\ count_qm sql = length vals /\
+  tscan SCode (substitute sql vals) <> splice_t (tscan SCode sql) (map lit_of_bval vals).
+Proof. exact structure_refuted_dash. Qed.
+Print Assumptions C30_structure_refuted_dash.
+
+Theorem C30_structure_refuted_quote : exists (sql : text) (vals : list bval),
+  count_protected_qm SCode sql = O /\ count_qm sql = length vals /\
+  tscan SCode (substitute sql vals) <> splice_t (tscan SCode sql) (map lit_of_bval vals).
+Proof. exact structure_refuted_quote. Qed.
+Print Assumptions C30_structure_refuted_quote.
+
+(** the remaining repair: with every literal between spaces the structure is preserved for EVERY template
+    and EVERY list of binder literals, and the repaired binder writes the specification's literals *)
 Theorem C30_structure_preserved_padded : forall (sql : text) (ls : list slit), plain_lits_ok ls ->
   tscan SCode (splice_pad SCode sql ls) = splice_t_pad (tscan SCode sql) ls.
 Proof. exact structure_preserved_padded. Qed.
@@ -104,18 +127,6 @@ Theorem C30_bind_fixed_spec : forall (sql : text) (ps : list pyval),
   end.
 Proof. exact bind_fixed_spec. Qed.
 Print Assumptions C30_bind_fixed_spec.
-
-Theorem C30_structure_refuted_dash : exists (sql : text) (vals : list bval),
-  count_protected_qm SCode sql = O /\ count_qm sql = length vals /\
-  tscan SCode (substitute sql vals) <> splice_t (tscan SCode sql) (map lit_of_bval vals).
-Proof. exact structure_refuted_dash. Qed.
-Print Assumptions C30_structure_refuted_dash.
-
-Theorem C30_structure_refuted_quote : exists (sql : text) (vals : list bval),
-  count_protected_qm SCode sql = O /\ count_qm sql = length vals /\
-  tscan SCode (substitute sql vals) <> splice_t (tscan SCode sql) (map lit_of_bval vals).
-Proof. exact structure_refuted_quote. Qed.
-Print Assumptions C30_structure_refuted_quote.
 
 (** * the statement cache *)
 
@@ -131,75 +142,42 @@ Theorem C30_cache_transparent_cursor :
 Proof. exact cache_transparent_fixed. Qed.
 Print Assumptions C30_cache_transparent_cursor.
 
-(** keyed by the UNBOUND text (the code) it is invisible on histories that always pass the same
-    parameters with the same text *)
-Theorem C30_cursor_transparent_functional :
+(** the code as it is now: earlier calls never influence later ones - every history is the cache-free
+    run of the same binder *)
+Theorem C30_cache_transparent_now :
   forall (stmt D res : Type) (parse : text -> option stmt) (kind : stmt -> skind)
          (exec : D -> stmt -> D * option res) (cap : nat)
          (calls : list (text * option (list pyval))) (d : D),
-    functional calls ->
-    let '(os, d', c') := run_cursor stmt D res parse kind exec cap d new_cursor calls in
-    run_plain stmt D res parse kind exec process d None calls = (os, d', last c').
-Proof. exact cursor_plain_functional. Qed.
-Print Assumptions C30_cursor_transparent_functional.
-
-(** whatever the history: a cached statement is the parse of the bound text of an earlier call with
-    that text - this, with the next theorem, is what a hit executes instead of the current call *)
-Theorem C30_cache_entries_from_history :
-  forall (stmt D res : Type) (parse : text -> option stmt) (kind : stmt -> skind)
-         (exec : D -> stmt -> D * option res) (cap : nat)
-         (calls : list (text * option (list pyval))) (d : D),
-    let '(_, _, c') := run_cursor stmt D res parse kind exec cap d new_cursor calls in
-    forall (k : text) (s : stmt), In (k, s) (cache c') ->
-      exists (ps : option (list pyval)) (t : text), In (k, ps) calls /\ process k ps = Some t /\ parse t = Some s.
-Proof. exact cache_entries_from_history. Qed.
-Print Assumptions C30_cache_entries_from_history.
-
-(** a hit does not look at the parameters at all *)
-Theorem C30_hit_ignores_params :
-  forall (stmt D res : Type) (parse : text -> option stmt) (kind : stmt -> skind)
-         (exec : D -> stmt -> D * option res) (cap : nat) (d : D) (c : cursor stmt res) (sql : text) (st : stmt),
-    lru_find stmt sql (cache c) = Some st ->
-    forall p1 p2 : option (list pyval),
-      execute stmt D res parse kind exec cap d c sql p1 = execute stmt D res parse kind exec cap d c sql p2.
-Proof. exact hit_ignores_params. Qed.
-Print Assumptions C30_hit_ignores_params.
+    let '(os, d', c') := run_now stmt D res parse kind exec cap d new_cursor calls in
+    run_plain stmt D res parse kind exec process_now d None calls = (os, d', last c').
+Proof. exact cache_transparent_now. Qed.
+Print Assumptions C30_cache_transparent_now.
 
 Theorem C30_cache_size_bound :
   forall (stmt D res : Type) (parse : text -> option stmt) (kind : stmt -> skind)
          (exec : D -> stmt -> D * option res) (cap : nat) (d : D) (c : cursor stmt res)
          (sql : text) (ps : option (list pyval)) (d' : D) (c' : cursor stmt res) (o : outcome res),
     (length (cache c) <= cap)%nat ->
-    execute stmt D res parse kind exec cap d c sql ps = (d', c', o) ->
+    execute_now stmt D res parse kind exec cap d c sql ps = (d', c', o) ->
     (length (cache c') <= cap)%nat.
-Proof. exact cache_size_bound. Qed.
+Proof. exact cache_size_bound_now. Qed.
 Print Assumptions C30_cache_size_bound.
 
 (** * the property *)
 
-(** true under the exact side conditions: same text => same parameters; no '?' in a protected region;
-    parameters in the domain where the code prints the specification's literal *)
+(** the code as it is now: true for EVERY history whose parameterised texts have no '?' in a protected
+    region - no condition on repeated texts, none on the values *)
 Theorem C30_binding_faithful :
   forall (stmt D res : Type) (parse : text -> option stmt) (kind : stmt -> skind)
          (exec : D -> stmt -> D * option res) (cap : nat)
          (calls : list (text * option (list pyval))) (d : D),
-    functional calls -> Forall clean_call calls ->
-    let '(os, d', c') := run_cursor stmt D res parse kind exec cap d new_cursor calls in
+    Forall clean_now calls ->
+    let '(os, d', c') := run_now stmt D res parse kind exec cap d new_cursor calls in
     run_spec stmt D res parse kind exec d calls = (os, d', last c').
-Proof. exact binding_faithful. Qed.
+Proof. exact binding_faithful_now. Qed.
 Print Assumptions C30_binding_faithful.
 
-Theorem C30_binding_faithful_unique_texts :
-  forall (stmt D res : Type) (parse : text -> option stmt) (kind : stmt -> skind)
-         (exec : D -> stmt -> D * option res) (cap : nat)
-         (calls : list (text * option (list pyval))) (d : D),
-    NoDup (map fst calls) -> Forall clean_call calls ->
-    let '(os, d', c') := run_cursor stmt D res parse kind exec cap d new_cursor calls in
-    run_spec stmt D res parse kind exec d calls = (os, d', last c').
-Proof. exact binding_faithful_unique_texts. Qed.
-Print Assumptions C30_binding_faithful_unique_texts.
-
-(** the repaired cursor (literal-aware binder first, cache keyed by the bound text): every history *)
+(** with the remaining repair as well (literal-aware binder): every history, no side condition *)
 Theorem C30_binding_faithful_fixed :
   forall (stmt D res : Type) (parse : text -> option stmt) (kind : stmt -> skind)
          (exec : D -> stmt -> D * option res) (cap : nat)
@@ -209,77 +187,64 @@ Theorem C30_binding_faithful_fixed :
 Proof. exact binding_faithful_fixed. Qed.
 Print Assumptions C30_binding_faithful_fixed.
 
-(** the unconditional statement is false of the faithful model *)
+(** the unconditional statement is still false of the code as it is now *)
 Theorem C30_binding_faithful_refuted :
   ~ (forall (stmt D res : Type) (parse : text -> option stmt) (kind : stmt -> skind)
             (exec : D -> stmt -> D * option res) (cap : nat) (calls : list (text * option (list pyval))) (d : D),
-       fst (fst (run_cursor stmt D res parse kind exec cap d new_cursor calls))
+       fst (fst (run_now stmt D res parse kind exec cap d new_cursor calls))
        = fst (fst (run_spec stmt D res parse kind exec d calls))).
-Proof. exact binding_faithful_unconditional_refuted. Qed.
+Proof. exact binding_faithful_now_unconditional_refuted. Qed.
 Print Assumptions C30_binding_faithful_refuted.
 
-(** witness 1 (known class stmt-cache-replays-first-parameters): two clean calls, the second executes the first's value *)
-Theorem C30_binding_refuted_cache :
-  let calls := [(sel_q, Some [PInt 1]); (sel_q, Some [PInt 2])] in
-  Forall clean_call calls /\
-  echo_outcomes calls = [OOk (sel_lit [49]); OOk (sel_lit [49])] /\
-  echo_spec calls = [OOk (sel_lit [49]); OOk (sel_lit [50])].
-Proof. exact binding_refuted_cache. Qed.
-Print Assumptions C30_binding_refuted_cache.
-
-(** ... and on a hit neither the number of parameters nor their absence is noticed *)
-Theorem C30_binding_refuted_cache_count :
-  let calls := [(sel_q, Some [PInt 1]); (sel_q, Some []); (sel_q, None)] in
-  echo_outcomes calls = [OOk (sel_lit [49]); OOk (sel_lit [49]); OOk (sel_lit [49])] /\
-  echo_spec calls = [OOk (sel_lit [49]); OProgBind; OOk sel_q].
-Proof. exact binding_refuted_cache_count. Qed.
-Print Assumptions C30_binding_refuted_cache_count.
-
-(** witness 2 (known class placeholder-inside-string-literal) *)
+(** witness (known class placeholder-inside-string-literal) *)
 Theorem C30_binding_refuted_literal :
   let calls := [(sel_quoted_q, Some [PInt 5])] in
-  functional calls /\
-  echo_outcomes calls = [OOk (sel_lit [39; 53; 39])] /\
-  echo_spec calls = [OProgBind].
-Proof. exact binding_refuted_literal. Qed.
+  echo_now calls = [OOk (sel_lit [39; 53; 39])] /\ echo_spec calls = [OProgBind].
+Proof. exact binding_now_refuted_literal. Qed.
 Print Assumptions C30_binding_refuted_literal.
 
 Theorem C30_binding_refuted_literal_count :
   let calls := [(sel_quoted_q, Some [])] in
-  echo_outcomes calls = [OProgBind] /\ echo_spec calls = [OOk sel_quoted_q].
-Proof. exact binding_refuted_literal_count. Qed.
+  echo_now calls = [OProgBind] /\ echo_spec calls = [OOk sel_quoted_q].
+Proof. exact binding_now_refuted_literal_count. Qed.
 Print Assumptions C30_binding_refuted_literal_count.
 
-(** witness 3 (known class nonfinite-float-bound-as-identifier) *)
-Theorem C30_binding_refuted_nonfinite :
+(** the former witnesses of the two repaired classes now satisfy the property (fixed:
+    stmt-cache-replays-first-parameters, nonfinite-float-bound-as-identifier) *)
+Theorem C30_cache_witness_repaired :
+  let calls := [(sel_q, Some [PInt 1]); (sel_q, Some [PInt 2]); (sel_q, Some []); (sel_q, None)] in
+  echo_now calls = [OOk (sel_lit [49]); OOk (sel_lit [50]); OProgBind; OOk sel_q] /\
+  echo_now calls = echo_spec calls.
+Proof. exact cache_witness_repaired. Qed.
+Print Assumptions C30_cache_witness_repaired.
+
+Theorem C30_nonfinite_witness_repaired :
   let calls := [(sel_q, Some [PFloat inf_bits])] in
-  functional calls /\ count_protected_qm SCode sel_q = O /\
-  echo_outcomes calls = [OOk (sel_lit [105; 110; 102])] /\
-  echo_spec calls = [OProgBind].
-Proof. exact binding_refuted_nonfinite. Qed.
-Print Assumptions C30_binding_refuted_nonfinite.
+  echo_now calls = [OProgBind] /\ echo_now calls = echo_spec calls.
+Proof. exact nonfinite_witness_repaired. Qed.
+Print Assumptions C30_nonfinite_witness_repaired.
 
 (** * values read back *)
-Theorem C30_value_roundtrip_py : forall (v : pyval) (r : rval), py_expected v = Some r -> read_back v = Some r.
-Proof. exact value_roundtrip_py. Qed.
+Theorem C30_value_roundtrip_py : forall (v : pyval) (r : rval), py_expected v = Some r -> read_back_now v = Some r.
+Proof. exact value_roundtrip_now. Qed.
 Print Assumptions C30_value_roundtrip_py.
 
 (** i64::MIN keeps its value but comes back as a float *)
-Theorem C30_value_roundtrip_i64_min : read_back (PInt i64_min) = Some (RFloat 14114281232179134464).
-Proof. exact roundtrip_i64_min. Qed.
+Theorem C30_value_roundtrip_i64_min : read_back_now (PInt i64_min) = Some (RFloat 14114281232179134464).
+Proof. exact roundtrip_i64_min_now. Qed.
 Print Assumptions C30_value_roundtrip_i64_min.
 
-(** known class int-beyond-i64-rounded-to-double *)
-Theorem C30_value_roundtrip_big_int_refuted :
-  exists z : Z, read_back (PInt z) = Some (RFloat 4890909195324358656) /\ z <> 9223372036854775808.
-Proof. exact roundtrip_big_int_refuted. Qed.
-Print Assumptions C30_value_roundtrip_big_int_refuted.
+(** fixed: int-beyond-i64-rounded-to-double - such ints are refused, not altered *)
+Theorem C30_big_int_refused : forall z : Z, in_i64 z = false ->
+  py_to_sqlvalue_r (PInt z) = None /\ read_back_now (PInt z) = None.
+Proof. exact big_int_refused. Qed.
+Print Assumptions C30_big_int_refused.
 
-(** infinities and NaN come back as column references (all 2^53 such bit patterns) *)
-Theorem C30_value_roundtrip_nonfinite_refuted : forall b : Z, 0 <= b < two64 -> f64_finite b = false ->
-  exists t : text, read_back (PFloat b) = Some (RIdent t).
-Proof. exact roundtrip_nonfinite_refuted. Qed.
-Print Assumptions C30_value_roundtrip_nonfinite_refuted.
+(** fixed: nonfinite-float-bound-as-identifier - infinities and NaN are refused *)
+Theorem C30_nonfinite_refused : forall b : Z, f64_finite b = false ->
+  py_to_sqlvalue_r (PFloat b) = None /\ read_back_now (PFloat b) = None.
+Proof. exact nonfinite_refused. Qed.
+Print Assumptions C30_nonfinite_refused.
 
 (** * floats: printer (Dragon4) and reader (nearest-even) proved against each other *)
 
@@ -293,6 +258,14 @@ Theorem C30_dragon_in_interval : forall (m mi pl e : Z) (incl : bool) (ds : list
 Proof. exact dragon_in_interval. Qed.
 Print Assumptions C30_dragon_in_interval.
 
+(** Dragon4 stops after at most 18 rounds: at most 19 digits, at most 421 fraction digits *)
+Theorem C30_dragon_digit_count : forall (m mi pl e : Z) (incl : bool) (ds : list Z) (k : Z),
+  2 <= m -> m + pl <= 2 ^ 55 -> 0 < mi -> 0 < pl -> -1077 <= e <= 970 ->
+  dragon_shortest m mi pl e incl = Some (ds, k) ->
+  (length ds <= 19)%nat /\ -421 <= k - Z.of_nat (length ds).
+Proof. exact dragon_digit_count. Qed.
+Print Assumptions C30_dragon_digit_count.
+
 (** the reader returns b for every rational in the rounding interval flt2dec::decode gives for b *)
 Theorem C30_reader_rounds_to_nearest : forall (b n d mant minus plus exp : Z) (incl : bool),
   0 < b < two63 -> f64_decode b = DFinite mant minus plus exp incl ->
@@ -303,20 +276,12 @@ Theorem C30_reader_rounds_to_nearest : forall (b n d mant minus plus exp : Z) (i
 Proof. exact f64_of_ratio_decoded. Qed.
 Print Assumptions C30_reader_rounds_to_nearest.
 
-(** Dragon4 stops after at most 18 rounds: at most 19 digits, at most 421 fraction digits *)
-Theorem C30_dragon_digit_count : forall (m mi pl e : Z) (incl : bool) (ds : list Z) (k : Z),
-  2 <= m -> m + pl <= 2 ^ 55 -> 0 < mi -> 0 < pl -> -1077 <= e <= 970 ->
-  dragon_shortest m mi pl e incl = Some (ds, k) ->
-  (length ds <= 19)%nat /\ -421 <= k - Z.of_nat (length ds).
-Proof. exact dragon_digit_count. Qed.
-Print Assumptions C30_dragon_digit_count.
-
 (** EVERY finite float is read back as the same double: as a Numeric double, or as the integer literal
     whose binary64 conversion is that double (integral floats print without a '.'); the sign of zero is
     lost.  (Subnormals with an odd mantissa need an extra argument: flt2dec::decode marks the interval of
     every subnormal as inclusive, the reader resolves the end points of an odd mantissa away from it; but
     an end point is an odd multiple of 2^-1075 and the printed decimal has at most 421 fraction digits.) *)
 Theorem C30_float_roundtrip : forall b : Z, 0 <= b < two64 -> f64_finite b = true ->
-  exists r : rval, read_back (PFloat b) = Some r /\ as_double r = Some (if f64_is_zero b then 0 else b).
-Proof. exact float_roundtrip. Qed.
+  exists r : rval, read_back_now (PFloat b) = Some r /\ as_double r = Some (if f64_is_zero b then 0 else b).
+Proof. exact float_roundtrip_now. Qed.
 Print Assumptions C30_float_roundtrip.
